@@ -13,4 +13,23 @@ ok = compileall.compile_dir(os.path.join(VERIF, 'pyvc'), quiet=1, force=False)
 from tools import xcheck  # noqa: E402
 bad = xcheck.run(verbose=False)
 print('selftest: cross-check mismatches:', bad)
+
+# the z3 unsoundness the engine works around (pyvc/path.py: len_lemmas): the raw query is satisfiable (tl = []), z3 5.1.0 /
+# 4.8.12 answer unsat; with the length lemma the answer must not be unsat, otherwise the work-around no longer holds
+import z3  # noqa: E402
+from pyvc.path import len_lemmas  # noqa: E402
+TL = z3.Const('tl', z3.SeqSort(z3.StringSort()))
+k = z3.Int('k')
+e = z3.SubString(TL[k], z3.Length(TL[k]) - 1, 1)
+q = [z3.Length(TL) <= 0, z3.Implies(z3.And(k >= 0, k < z3.Length(TL)), z3.Length(e) <= 1)]
+raw = z3.Solver()
+raw.add(*q)
+fixed = z3.Solver()
+fixed.add(*q)
+fixed.add(*len_lemmas(q))
+r_raw, r_fixed = raw.check(), fixed.check()
+print(f'selftest: z3 {z3.get_version_string()} on the known-unsound query: raw {r_raw} (correct: sat), with length lemmas '
+      f'{r_fixed}')
+if r_fixed == z3.unsat:
+    bad += 1
 sys.exit(0 if bad == 0 else 3)
